@@ -386,9 +386,8 @@ func invoke(input OmegaInput) (output OmegaOutput) {
 		}
 	}
 	// psi preprocess
-	tmpProgram := Program{
-		InstructionData: input.Addition.IntegratedPVMMap[n].ProgramCode,
-	}
+	// m[n]_p is the program blob validated by machine; deblob it again to run it
+	tmpProgram, deblobExit := DeBlobProgramCode(input.Addition.IntegratedPVMMap[n].ProgramCode)
 	tempMemory := input.Addition.IntegratedPVMMap[n].Memory
 	// wrap m[n]_p (program),  w (registers),  m[n]_u (memory),   g (gas) into NewHost
 	tempHost := NewHost(&tmpProgram, w, &tempMemory, Gas(g), HostCallArgs{}, nil)
@@ -396,7 +395,12 @@ func invoke(input OmegaInput) (output OmegaOutput) {
 	var c ExitReason
 	var pcPrime ProgramCounter
 
-	c, pcPrime = tempHost.Interpreter.SingleStepInvoke(input.Addition.IntegratedPVMMap[n].PC)
+	if deblobExit != ExitContinue {
+		// Ψ panics without touching the machine when the blob does not deblob
+		c, pcPrime = ExitPanic, input.Addition.IntegratedPVMMap[n].PC
+	} else {
+		c, pcPrime = tempHost.Interpreter.SingleStepInvoke(input.Addition.IntegratedPVMMap[n].PC)
+	}
 
 	// mu* = mu
 	encoder := types.NewEncoder()
@@ -414,7 +418,7 @@ func invoke(input OmegaInput) (output OmegaOutput) {
 	tmp := input.Addition.IntegratedPVMMap[n]
 	tmp.Memory = *tempHost.Interpreter.Memory
 	if c.GetReasonType() == HOST_CALL {
-		tmp.PC = pcPrime + 1 + ProgramCounter(skip(int(pcPrime), input.Addition.Program.Bitmasks))
+		tmp.PC = pcPrime + 1 + ProgramCounter(skip(int(pcPrime), tmpProgram.Bitmasks))
 	} else {
 		tmp.PC = pcPrime
 	}
